@@ -474,8 +474,19 @@ func init() {
 					// requested NSSAI, well-formed
 					ne := 1 + i%8
 					var b []byte
+					var prev []refconv.Snssai
 					for j := 0; j < ne; j++ {
-						b = append(b, refconv.SnssaiContents(c13RandSnssai(c.R, variants[c.R.Intn(5)]))...)
+						sn := c13RandSnssai(c.R, variants[c.R.Intn(5)])
+						if len(prev) > 0 && c.R.Chance(1, 3) {
+							// the slice of an earlier entry again, in this entry's variant
+							p := prev[c.R.Intn(len(prev))]
+							sn.SST = p.SST
+							if sn.HasSD && p.HasSD {
+								sn.SD = p.SD
+							}
+						}
+						prev = append(prev, sn)
+						b = append(b, refconv.SnssaiContents(sn)...)
 					}
 					k := &core.Case{Oracle: "nssai-decode", Target: "nasConvert.RequestedNssaiToModels", B: [][]byte{b}}
 					c.Do(k)
